@@ -3,6 +3,7 @@
 package actor
 
 import (
+	"errors"
 	"fmt"
 	"strings"
 	"testing"
@@ -16,7 +17,7 @@ import (
 // One scenario per rooted tree shape (<= 4 user actors). The first choices of an execution pick the
 // program: stop operation 1 (kind x node), optional stop operation 2 (cost 1), optional third
 // operation (SpawnChild under a node, or Restart of a node; cost 1), optionally a delayed death watch
-// (cost 1). Then every order of: start operation k, release a PostStop gate, release the PreStart
+// (cost 1), optionally one node suspended beforehand (cost 1). Then every order of: start operation k, release a PostStop gate, release the PreStart
 // gate of the racing child / of a restarted incarnation and, when the death watch is delayed, let it
 // handle Terminated(x) (= tree removal).
 //
@@ -47,6 +48,12 @@ var c09Shapes = []c09Shape{
 
 func c09Name(i int) string { return fmt.Sprintf("n%d", i) }
 
+// c09Alive: the actor is live and nobody is stopping it: running, or suspended (a suspended actor
+// keeps its state and children and can be reinstated).
+func c09Alive(pid *PID) bool {
+	return pid != nil && (pid.IsRunning() || (pid.IsSuspended() && !pid.IsStopping()))
+}
+
 type c09World struct {
 	*lfWorld
 	shape   c09Shape
@@ -54,6 +61,9 @@ type c09World struct {
 	restart bool
 	stopOps int  // number of operations in the program that stop actors (Restart included)
 	stopped bool // system stopped by an operation
+	// restartOp / restartNode: the racing Restart operation and its target (nil / -1: none)
+	restartOp   *lfOp
+	restartNode int
 }
 
 // descendants of node i by shape (names), including the dynamic child x.
@@ -108,15 +118,15 @@ func (cw *c09World) subtreeReturnCheck(i int, api string) []vsched.Violation {
 		if n == "x" {
 			cause = "racing-spawnchild"
 		}
-		if pid.IsRunning() {
-			out = append(out, vsched.Fail("running-after-stop-returned/"+cause, "%s returned nil for %s but %s IsRunning", api, c09Name(i), n))
+		if c09Alive(pid) {
+			out = append(out, vsched.Fail("running-after-stop-returned/"+cause, "%s returned nil for %s but %s is still alive (running=%v suspended=%v)", api, c09Name(i), n, pid.IsRunning(), pid.IsSuspended()))
 		}
 		if !cw.sys.Running() {
 			continue
 		}
 		if got, err := cw.sys.ActorOf(c06Ctx, n); err == nil && got != nil {
 			sig := "resolvable-after-stop-returned/stopped-instance-still-registered"
-			if got.IsRunning() {
+			if c09Alive(got) {
 				sig = "resolvable-after-stop-returned/running-instance-" + cause
 			}
 			out = append(out, vsched.Fail(sig, "%s returned nil for %s but ActorOf(%s) still resolves (running=%v, same instance=%v)", api, c09Name(i), n, got.IsRunning(), got == pid))
@@ -146,7 +156,27 @@ func c09StopOpts(cw *c09World) []c09StopOpt {
 			}
 			return op
 		}})
-		out = append(out, c09StopOpt{"poisonpill(" + name + ")", func(cw *c09World) *lfOp { return lfOpPoison(name) }})
+		out = append(out, c09StopOpt{"poisonpill(" + name + ")", func(cw *c09World) *lfOp {
+			op := lfOpPoison(name)
+			// a PoisonPill parks the target's own turn on the PostStop gate; restartSubtree spin-waits
+			// for such a turn when it reaches that actor, so the pill is not sent into the subtree of a
+			// Restart that is in flight (it is sent before the Restart starts or after it returned)
+			op.enabled = func(w *lfWorld) bool {
+				if cw.restartOp == nil || !cw.restartOp.started || w.opDone(cw.restartOp) {
+					return true
+				}
+				if cw.restartNode == i {
+					return false
+				}
+				for _, d := range cw.descendants(cw.restartNode) {
+					if d == name {
+						return false
+					}
+				}
+				return true
+			}
+			return op
+		}})
 		if p := cw.shape.parent[i]; p >= 0 {
 			pn := c09Name(p)
 			out = append(out, c09StopOpt{pn + ".stop(" + name + ")", func(cw *c09World) *lfOp {
@@ -234,7 +264,7 @@ func c09StepInv(cw *c09World) []vsched.Violation {
 	tr := cw.sys.tree()
 	for _, n := range tr.nodes() {
 		v := n.value()
-		if v == nil || n.parentNode == nil || !v.IsRunning() {
+		if v == nil || n.parentNode == nil || !c09Alive(v) {
 			continue
 		}
 		if pn, ok := tr.node(n.parentNode.id); !ok || pn != n.parentNode {
@@ -248,7 +278,7 @@ func c09StepInv(cw *c09World) []vsched.Violation {
 	for _, n := range names {
 		pid := cw.pid(n)
 		pn := cw.parentName(n)
-		if pid == nil || pn == "" || !pid.IsRunning() {
+		if pid == nil || pn == "" || !c09Alive(pid) {
 			continue
 		}
 		cause := "other"
@@ -259,7 +289,7 @@ func c09StepInv(cw *c09World) []vsched.Violation {
 		}
 		pp := cw.pid(pn)
 		if !pp.isStateSet(runningState) {
-			out = append(out, vsched.Fail("live-actor-with-stopped-parent/"+cause, "%s is running but its parent %s is stopped", n, pn))
+			out = append(out, vsched.Fail("live-actor-with-stopped-parent/"+cause, "%s is alive (running=%v suspended=%v) but its parent %s is stopped", n, pid.IsRunning(), pid.IsSuspended(), pn))
 		} else if node, ok := tr.node(pp.ID()); !ok || node.value() != pp {
 			out = append(out, vsched.Fail("live-actor-with-unregistered-parent/"+cause, "%s is running, its parent %s is live (running=%v) but not registered in the tree", n, pn, pp.IsRunning()))
 		}
@@ -302,7 +332,7 @@ func c09Run(t *testing.T, shape c09Shape, cost3 int) func(c *vsched.Chooser) vsc
 		w := &lfWorld{}
 		p := vfBubble(t, func() {
 			lfGuard(w, &out, func() {
-				cw := &c09World{lfWorld: w, shape: shape, xParent: -1}
+				cw := &c09World{lfWorld: w, shape: shape, xParent: -1, restartNode: -1}
 				w.sys = lfNewSystem("c09")
 				w.wrapDeathWatch()
 				for i, p := range shape.parent {
@@ -351,7 +381,31 @@ func c09Run(t *testing.T, shape c09Shape, cost3 int) func(c *vsched.Chooser) vsc
 					}
 					return "deathwatch=delayed"
 				}) == 1
+				// optionally (cost 1) one node is suspended before the program starts: it fails with an error
+				// its supervisor has no directive for (the default supervisor only knows panics)
+				nS := 1 + n
+				costsS := make([]int, nS)
+				for i := 1; i < nS; i++ {
+					costsS[i] = 1
+				}
+				iS := c.Choose("config", nS, costsS, func(i int) string {
+					if i == 0 {
+						return "suspended=none"
+					}
+					return "suspended=" + c09Name(i-1)
+				})
 				cfg := []string{opts[i1].label}
+				if iS > 0 {
+					sn := c09Name(iS - 1)
+					cfg = append(cfg, "suspended("+sn+")")
+					if err := Tell(c06Ctx, w.pid(sn), &lfMsg{label: "fail", act: func(a *lfActor, ctx *ReceiveContext) { ctx.Err(errors.New("c09 unhandled failure")) }}); err != nil {
+						panic(fmt.Sprintf("c09: cannot fail %s: %v", sn, err))
+					}
+					vsched.Settle()
+					if !w.pid(sn).IsSuspended() {
+						panic("c09: " + sn + " did not become suspended")
+					}
+				}
 				if dwDelayed {
 					cfg = append(cfg, "dw-delayed")
 				}
@@ -384,6 +438,7 @@ func c09Run(t *testing.T, shape c09Shape, cost3 int) func(c *vsched.Chooser) vsc
 					cw.restart = true
 					cw.stopOps++
 					rs = w.addOp(lfOpRestart(c09Name(i3 - 1 - n)))
+					cw.restartOp, cw.restartNode = rs, i3-1-n
 					cfg = append(cfg, rs.label)
 				}
 				w.gatePolicy = func(a *lfActor, hook, msg string) bool {
